@@ -151,7 +151,10 @@ func population(cfg *PropCfg, tier string, seed uint64) []ProgSpec {
 		}
 		sort.Ints(ms)
 		sp := ProgSpec{ID: id, Schema: s, Bop: s.PrintLayout(schema.Layout{Indent: "    "}), Masks: ms}
-		if cfg.Evolve {
+		if s.HasLib() {
+			sp.Bop = s.PrintApp("lib.bop") // informative only: the per-mask files are written at build time
+		}
+		if cfg.Evolve && !s.HasLib() {
 			old := s
 			nw := schema.Evolve(old, r.Fork("evolve"))
 			if nw != nil {
@@ -162,9 +165,16 @@ func population(cfg *PropCfg, tier string, seed uint64) []ProgSpec {
 		specs = append(specs, sp)
 	}
 	for i, s := range schema.Core() {
+		if cfg.TextOnly && s.HasLib() {
+			continue // text-only simulations bring their own import files
+		}
 		add(s, i)
 	}
 	for i := 0; i < cfg.RandProgs[tier]; i++ {
+		if !cfg.TextOnly && i%5 == 4 {
+			add(schema.GenerateWithLib(r.Fork(fmt.Sprint("prog", i)), fmt.Sprintf("randlib%d", i)), i+100)
+			continue
+		}
 		add(schema.Generate(r.Fork(fmt.Sprint("prog", i)), fmt.Sprintf("rand%d", i)), i+100)
 	}
 	return specs
